@@ -27,6 +27,7 @@ func streamEnc(c *ev.Case, t sut, p, s []byte, sStr bool, rp readerPlan, wp writ
 		return nil
 	}
 	noteReader(c, "enc", sp, sr, rp)
+	c.Add(writerKindCounter[false][wp.kind%nWriterKinds], 1)
 	if len(out) == len(p)+16 {
 		c.Add("stream_ct_is_header_plus_len", 1)
 	} else {
@@ -65,6 +66,15 @@ func noteReader(c *ev.Case, dir string, sp *spy, sr *sreader, rp readerPlan) {
 	}
 	if rp.kind == 10 {
 		c.Add("stream_eof_with_data", 1)
+	}
+	if dir == "enc" {
+		// the chunkings the statement names, on the encryption side
+		if rp.kind == 8 || (rp.kind == 4 && rp.chunk == 1) {
+			c.Add("stream_enc_one_byte_reads", 1)
+		}
+		if (sr != nil && sr.eofData > 0) || rp.kind == 10 {
+			c.Add("stream_enc_eof_with_data", 1)
+		}
 	}
 	if dir == "dec" {
 		if !sp.headerClean() {
@@ -110,6 +120,7 @@ func streamDec(c *ev.Case, t sut, ct, p, s []byte, sStr bool, rp readerPlan, wp 
 		return false
 	}
 	noteReader(c, "dec", sp, sr, rp)
+	c.Add(writerKindCounter[true][wp.kind%nWriterKinds], 1)
 	c.Add("stream_round_trips", 1)
 	return true
 }
